@@ -11,6 +11,11 @@ Correspondence: `BDParser().parse(text, extern)` and `BootImageV21.load_from_con
 Oracle        : an independent Python evaluator of the abstract syntax (ordinary integer arithmetic) and an independent
                 "one command per supported statement" reference; both are also compared with the Lean Spec (compiled
                 into the driver), so the executable oracle and the Spec of the theorems are tied on every case.
+Independence  : every generated input, every expected value and every known-finding predicate is computed on the harness
+                side from the input alone (reference printer / lexer / parser for the documented grammar, `ref_eval`,
+                `stmt_ref`).  Driver answers only feed `compare`; with no driver, or a driver answering nonsense, the same
+                inputs and oracles run and the result is at worst a broken correspondence (VERIF_FAULT self-tests).
+                The one Lean-side reference an oracle uses is `rom21` of drv_c04 (boot-ROM decoder, declared in spec_ops).
 """
 from __future__ import annotations
 
@@ -1405,8 +1410,8 @@ def expr_streams(ck, real, drv, rng):
 
     # ------------------------------------------------------------------ random abstract syntax, printed by the Lean printer
     s = ck.stream("expr_random", "random bool_expr / expr syntax trees (depth <= 5: + - * / % << >> & | ^, unary +-, int-size suffixes, "
-                  "comparisons, && || !, defined(), constants referring to earlier constants), printed with minimal parentheses by the proved "
-                  "printer, rendered with random number formats (dec/hex/K/'c'/yes/no), spacing and comments; non-trivial = value (not error)")
+                  "comparisons, && || !, defined(), constants referring to earlier constants), printed with minimal parentheses by the harness's "
+                  "reference printer (compared token by token with the proved Lean printer), rendered with random number formats (dec/hex/K/'c'/yes/no), spacing and comments; non-trivial = value (not error)")
     n = ck.budget(6000, 120000)
     consts = [("a", 10), ("zz", 3), ("c0de", 0x1234), ("big", 0x1_0000_0001), ("ab", 7), ("f", 0)]
     # constants referring to earlier constants: the prelude is itself part of what is evaluated
@@ -1473,8 +1478,8 @@ def expr_streams(ck, real, drv, rng):
                      "a BD constant expression does not evaluate to the value the language semantics prescribes", gots[j], want)
 
     # ------------------------------------------------------------------ the canonical text of the proved round trip
-    s = ck.stream("expr_canonical_text", "the same trees in the CANONICAL text of the Lean `render` (the text of theorems lex_print / "
-                  "parse_print_text / eval_text): the implementation's lexer + parser must give the Spec value on exactly this text; "
+    s = ck.stream("expr_canonical_text", "the same trees in the CANONICAL text (the text of theorems lex_print / parse_print_text / eval_text; "
+                  "harness rendering, compared with Lean `render`): the implementation's lexer + parser must give the Spec value on exactly this text; "
                   "non-trivial = value (not error)")
     for i in range(0, len(canon_cases), 25):
         chunk = canon_cases[i:i + 25]
@@ -1489,7 +1494,8 @@ def expr_streams(ck, real, drv, rng):
 
     # ------------------------------------------------------------------ one-token mutations of valid expressions
     s = ck.stream("expr_mutated", "valid printed expressions with ONE token deleted, duplicated, replaced or two swapped: accept/reject "
-                  "boundary and value, implementation vs model, and vs the reference value of the tree the reference parser builds; "
+                  "boundary and value, implementation vs model, and vs the reference value of the tree the harness's reference parser builds "
+                  "(compared with the tree of the Lean lexer + reference parser); "
                   "non-trivial = accepted")
     pool = ["+", "-", "*", "/", "%", "<<", ">>", "&", "|", "^", "(", ")", "<", "<=", "==", "!=", "&&", "||", "!", "1", "0x10", "a", "zz",
             ".b", "~", "defined(a)"]
